@@ -22,7 +22,7 @@ for res in sorted(glob.glob(os.path.join(SRC, 'results', 'C[0-9][0-9]_*m[0-9].js
     dst = os.path.join(V, 'seeded', name)
     os.makedirs(dst, exist_ok=True)
     for f in ('patch.diff', 'demo.py', 'notes.md'):
-        if os.path.exists(os.path.join(src, f)):
+        if os.path.exists(os.path.join(src, f)) and os.path.abspath(src) != os.path.abspath(dst):
             shutil.copy(os.path.join(src, f), os.path.join(dst, f))
     notes = open(os.path.join(dst, 'notes.md')).read() if os.path.exists(os.path.join(dst, 'notes.md')) else ''
     chk = r.get(f'check_{pid}', {})
